@@ -20,6 +20,7 @@ func init() {
 	vRegister("VerifC10Interactive", VerifC10Interactive)
 	vRegister("VerifC10History", VerifC10History)
 	vRegister("VerifC10Concurrent", VerifC10Concurrent)
+	vRegister("VerifC10WebConcurrent", VerifC10WebConcurrent)
 }
 
 // vC10Profile: main -> work -> leaf and main -> leaf, sample values symbolic
@@ -392,4 +393,43 @@ func VerifC10Interactive() {
 		vAssert(r0.cfg.Focus == "work", "C10.interactive.assign: an option assignment is not in effect for the next command")
 	}
 	setCurrentConfig(before)
+}
+
+// VerifC10WebConcurrent: two web requests served at the same time (as the
+// HTTP server does) each get the report and the warnings they get when served
+// alone; no data race on the web interface's shared state.
+func VerifC10WebConcurrent() {
+	vRaceDetect()
+	p := vC10Profile()
+	p.Sample[0].NumLabel = map[string][]int64{"bytes": {8}}
+	p.Sample[0].NumUnit = map[string][]string{"bytes": {"kilobytes"}}
+	copier := makeProfileCopier(p)
+	ui, uerr := makeWebInterface(p, copier, &plugin.Options{UI: &vNullUI{}})
+	if uerr != nil {
+		vAssert(false, "C10.webconc.setup: makeWebInterface failed")
+		return
+	}
+	qs := []string{"", "f=nomatch", "h=leaf", "si=nosuchtype"}
+	nq := vBound("c10.cqueries", len(qs))
+	a := qs[vChoice("queryA", nq)]
+	b := qs[vChoice("queryB", nq)]
+	seqA, warnA, okA := vC10Request(ui, a, nil)
+	seqB, warnB, okB := vC10Request(ui, b, nil)
+	var wg sync.WaitGroup
+	wg.Add(2)
+	var ra, rb []vItem
+	var wa, wb string
+	var oa, ob bool
+	go func() { defer wg.Done(); ra, wa, oa = vC10Request(ui, a, nil) }()
+	go func() { defer wg.Done(); rb, wb, ob = vC10Request(ui, b, nil) }()
+	wg.Wait()
+	vAssert(oa == okA && ob == okB, "sched:C10.webconc.outcome: a request's outcome depends on a concurrent request")
+	if oa && okA {
+		vAssert(vSameItems(ra, seqA), "sched:C10.webconc.result: a request's report differs when another request is served concurrently")
+		vAssert(vStrEq(wa, warnA), "sched:C10.webconc.warnings: the warnings shown for a request differ when another request is served concurrently")
+	}
+	if ob && okB {
+		vAssert(vSameItems(rb, seqB), "sched:C10.webconc.result: a request's report differs when another request is served concurrently")
+		vAssert(vStrEq(wb, warnB), "sched:C10.webconc.warnings: the warnings shown for a request differ when another request is served concurrently")
+	}
 }
